@@ -292,4 +292,5 @@ package engine
 // A pool carries its configuration unchanged (discard_overflow, rps-per-instance, the schedules and components).
 //@ func newPool
 //@ props C03 C04 C12
+//@ modifies nothing
 //@ ensures [pool-of-the-given-configuration] fresh(result) && result.InstancePoolConfig == conf && result.metrics == m && result.sharedGunDeps == nil
